@@ -108,6 +108,10 @@ fn exhaustive(t: TokenType) {
     }
 }
 
+pub fn all_token_types() -> &'static [TokenType] {
+    ALL_TOKEN_TYPES
+}
+
 fn token_type_of_name(name: &str) -> Option<TokenType> {
     ALL_TOKEN_TYPES.iter().copied().find(|t| format!("{:?}", t) == name)
 }
